@@ -90,3 +90,30 @@ Theorem C16_count_twice_refuted :
             total (recs (d_pre d)) = 300 /\ d_path d = wp 0.
 Proof. exact count_twice_refuted. Qed.
 Print Assumptions C16_count_twice_refuted.
+
+(* ---- regenerated from ringbuffer.py on every run (translator T10, Gen/RingbufGen.v): the `while`
+   condition of each expirer (with the super()._expire call after and outside the loop), the queue
+   duration, and the order in which the mixins run.  The model's loops use exactly these. *)
+From DRF Require Import Gen.RingbufGen Proofs.RingbufGenProofs.
+
+Theorem C16_loops_use_the_regenerated_conditions : forall c lim f s g,
+  count_loop c lim (S f) s g =
+    (if err s then s else if gen_count_cond (qlen s g) lim then count_loop c lim f (expire_oldest_from_group c s g 1 g) g else s) /\
+  time_loop c lim (S f) s g =
+    (if err s then s else if gen_time_cond (queue_duration (qget g (qs (h s)))) lim
+                          then time_loop c lim f (expire_oldest_from_group c s g 2 g) g else s) /\
+  size_loop c lim (S f) s g =
+    (if err s then s else if gen_size_cond (act (h s)) lim
+                          then size_loop c lim f (expire_oldest_from_group c s (removal_group (h s) g) 3 g) g else s).
+Proof. exact loops_use_regenerated_conditions. Qed.
+Print Assumptions C16_loops_use_the_regenerated_conditions.
+
+Theorem C16_queue_duration_is_the_regenerated_code : forall q,
+  queue_duration q = match q with [] => gen_queue_duration_empty | x :: _ => gen_queue_duration (pk x) (pk (last q x)) end.
+Proof. exact queue_duration_regen. Qed.
+Print Assumptions C16_queue_duration_is_the_regenerated_code.
+
+Theorem C16_expirer_order_is_the_regenerated_order : forall c s g,
+  expire c s g = fold_left (run_expirer c g) gen_mro s.
+Proof. exact expire_order_regen. Qed.
+Print Assumptions C16_expirer_order_is_the_regenerated_order.
